@@ -1253,6 +1253,158 @@ for _n, _t in nd.SCALAR_TYPES.items():
 intp = int_ = nd.SCALAR_TYPES["int64"]
 float_ = double = nd.SCALAR_TYPES["float64"]
 
+# ---- set / order helpers built on the primitives above ------------------------------------------------------
+def setdiff1d(a, b, assume_unique=False):
+    a = _a(a).flatten() if assume_unique else unique(_a(a))
+    return a[isin(a, b, invert=True)]
+
+
+def union1d(a, b):
+    return unique(concatenate([_a(a).flatten(), _a(b).flatten()]))
+
+
+def flip(a, axis=None):
+    a = _a(a)
+    if a.ndim == 1:
+        return a[::-1]
+    if a.ndim == 2 and axis in (0, None):
+        a = a[::-1, :]
+        if axis == 0:
+            return a
+    if a.ndim == 2 and axis in (1, -1, None):
+        return a[:, ::-1]
+    raise ShimUnsupported("flip ndim/axis")
+
+
+def flipud(a):
+    return flip(a, 0)
+
+
+def fliplr(a):
+    return flip(a, 1)
+
+
+def roll(a, shift, axis=None):
+    a = _a(a)
+    if a.ndim != 1 or not isinstance(_py(shift), _pyint):
+        raise ShimUnsupported("roll ndim / symbolic shift")
+    n = a.size
+    if not n:
+        return a.copy()
+    k = _py(shift) % n
+    return ndarray(a._d[n - k:] + a._d[:n - k], a.shape, a.dtype)
+
+
+def empty_like(a, dtype=None):
+    return zeros_like(a, dtype)
+
+
+def nansum(a, axis=None):
+    if axis is not None:
+        raise ShimUnsupported("nansum axis")
+    return _drop_nan(a).sum()
+
+
+def nanmean(a, axis=None):
+    if axis is not None:
+        raise ShimUnsupported("nanmean axis")
+    return _drop_nan(a).mean()
+
+
+def ediff1d(a):
+    return diff(_a(a).flatten())
+
+
+def ptp(a, axis=None):
+    if axis is not None:
+        raise ShimUnsupported("ptp axis")
+    a = _a(a)
+    return nd.sub(a.max(), a.min())
+
+
+def compress(cond, a, axis=None):
+    if axis is not None:
+        raise ShimUnsupported("compress axis")
+    return _a(a).flatten()[_a(cond)]
+
+
+def extract(cond, a):
+    return _a(a).flatten()[_a(cond).flatten()]
+
+
+def asanyarray(a, dtype=None):
+    return asarray(a, dtype) if dtype is not None else asarray(a)
+
+
+ascontiguousarray = asanyarray
+
+
+def swapaxes(a, i, j):
+    a = _a(a)
+    if a.ndim == 2 and {i % 2, j % 2} == {0, 1}:
+        return a.T
+    raise ShimUnsupported("swapaxes ndim")
+
+
+def identity(n, dtype=None):
+    return eye(n) if dtype is None else eye(n).astype(dtype)
+
+
+def outer(a, b):
+    a, b = _a(a).flatten(), _a(b).flatten()
+    return ndarray([nd.mul(x, y) for x in a._d for y in b._d], (a.size, b.size), promote(a.dtype, b.dtype))
+
+
+def logical_xor(a, b):
+    return logical_or(logical_and(a, logical_not(b)), logical_and(logical_not(a), b))
+
+
+def equal(a, b):
+    return _a(a) == b
+
+
+def not_equal(a, b):
+    return _a(a) != b
+
+
+def less(a, b):
+    return _a(a) < b
+
+
+def less_equal(a, b):
+    return _a(a) <= b
+
+
+def greater(a, b):
+    return _a(a) > b
+
+
+def greater_equal(a, b):
+    return _a(a) >= b
+
+
+class errstate:
+    def __init__(self, **kw):
+        pass
+
+    def __enter__(self):
+        return self
+
+    def __exit__(self, *a):
+        return False
+
+
+def cumprod(a, axis=None):
+    a = _a(a)
+    if a.ndim != 1 and axis is not None:
+        raise ShimUnsupported("cumprod axis")
+    out, acc = [], 1
+    for x in a.flatten()._d:
+        acc = nd.mul(acc, b2i(x))
+        out.append(acc)
+    return ndarray(out, (len(out),), a.dtype if a.dtype.kind == "f" else int64)
+
+
 
 def __getattr__(name):
     raise ShimUnsupported(f"numpy.{name} is not modelled")
